@@ -88,7 +88,8 @@ WORDS = ["word", "[[p]]", "[[p#a]]", "[[sub/q]]", "[^l]", "[#g]", "[@r]", Z2, "[
          "240105", "[[xpdf]]", Z3, "[#none]", "[@dup]"]
 W3 = ["", "[[p]]", Z2, "word"]
 PUNCT = [("", ""), ("", ","), ("(", ")."), ("", ":")]
-PREFIXES = ["", "- ", "o P2 ", "- 240105 ", "- " + Z1 + " ", "o P1 240105 " + Z1 + " ", "  * "]
+# kind prefixes, with / without modify date and primary ZID; a bullet line; a bare indented continuation line
+PREFIXES = ["", "- ", "o P2 ", "- 240105 ", "- " + Z1 + " ", "o P1 240105 " + Z1 + " ", "  * ", "    "]
 OPTIONS = [None, -1, 1, 2, 3]
 INDEXES = [
     dict(zids={Z2: "a.zo", Z3: "sub/b.zo", Z1: "own.zo"}, ids={"g": ["n/g.zo"], "none": []}, rids={"r": ["r.zo"], "dup": ["d1.zo", "d2.zo"]}),
